@@ -79,6 +79,7 @@ pub fn space_name_for_semantics<VM: VMBinding>(
     mutator: &crate::Mutator<VM>,
     semantics: AllocationSemantics,
 ) -> Option<&'static str> {
+    #[allow(unused_imports)]
     use crate::util::alloc::Allocator;
     let selector = mutator.config.allocator_mapping[semantics];
     if matches!(selector, crate::util::alloc::AllocatorSelector::None) {
@@ -168,4 +169,9 @@ pub mod alloc {
         align_allocation, align_allocation_inner, align_allocation_no_fill,
         get_maximum_aligned_size, get_maximum_aligned_size_inner,
     };
+}
+
+/// Side metadata without an MMTk instance (see `side_metadata::verif_hooks`).
+pub mod side_metadata {
+    pub use crate::util::metadata::side_metadata::verif_hooks::*;
 }
